@@ -34,6 +34,8 @@ def fields (b : Bytes) : Option Fields :=
   match readLP8 b4 with
   | none => none
   | some (comp, b5) =>
+  -- RFC 8446 4.1.2 / RFC 5246 7.4.1.2: before TLS 1.3 the extensions field may be absent altogether
+  if b5 = [] then some ⟨v, r, sid, cs, comp, [], []⟩ else
   match readLP16 b5 with
   | none => none
   | some (ext, b6) => some ⟨v, r, sid, cs, comp, ext, b6⟩
